@@ -85,9 +85,11 @@ class StepFile:
 
     def write(self, b):
         h = max(1, len(b) // 2)
+        # writes to / the close of a private temporary commute with every other process's steps
+        private = os.path.basename(self.rel).startswith('.tmp-')
         for part in (b[:h], b[h:]):
             if not part: continue
-            self.sched.step({'op': 'write', 'p': self.rel, 'n': len(part)}, self.conf)
+            self.sched.step({'op': 'write', 'p': self.rel, 'n': len(part)}, self.conf and not private)
             self.f.write(part); self.f.flush()
         return len(b)
 
@@ -96,12 +98,15 @@ class StepFile:
     def readinto(self, b): return self.f.readinto(b)
     def __enter__(self): return self
 
+    def _conf_close(self):
+        return self.conf and not os.path.basename(self.rel).startswith('.tmp-')
+
     def __exit__(self, *a):
-        if 'w' in self.mode: self.sched.step({'op': 'close', 'p': self.rel}, self.conf)
+        if 'w' in self.mode: self.sched.step({'op': 'close', 'p': self.rel}, self._conf_close())
         self.f.close()
 
     def close(self):
-        if 'w' in self.mode and not self.f.closed: self.sched.step({'op': 'close', 'p': self.rel}, self.conf)
+        if 'w' in self.mode and not self.f.closed: self.sched.step({'op': 'close', 'p': self.rel}, self._conf_close())
         self.f.close()
 
     def __getattr__(self, k): return getattr(self.f, k)
@@ -207,7 +212,7 @@ def one_run(cfg, decisions=(), rng=None):
             return [[c.num_results, bool(c.is_ready_to_reap())] for _ in range(cfg.get('polls', 1))]
         ts = []
         try:
-            old_stdout = sys.stdout; sys.stdout = io.StringIO()
+            old_stdout, old_stderr = sys.stdout, sys.stderr; sys.stdout = io.StringIO(); sys.stderr = io.StringIO()
             for gi, b in enumerate(cfg['growers']):
                 ts.append(actor('G%d' % (gi + 1), lambda b=b: cropping.grow(b, crop=crop, fn=f, verbosity=0)))
             ts.append(actor('R', lambda: [float(x) for x in xyz.Crop(name='p', parent_dir=tmp).reap(wait=True, clean_up=False)]))
@@ -218,7 +223,7 @@ def one_run(cfg, decisions=(), rng=None):
             except RuntimeError as e:
                 err = str(e)
         finally:
-            sys.stdout = old_stdout
+            sys.stdout, sys.stderr = old_stdout, old_stderr
             uninstall(saved, cropping)
             for t in ts: t.join(timeout=2)
         return {'out': out, 'trace': sched.trace, 'choices': sched.choices, 'expected': expected, 'sched_err': err}
